@@ -18,9 +18,21 @@ class TokenStream:
 
     eof = Token(TOKEN_EOF, TOKEN_EOF, -1, "")
 
-    def __init__(self, tokens: Iterator[Token], block_depth_carry: int = 0):
+    def __init__(
+        self,
+        tokens: Iterator[Token],
+        block_depth_carry: int = 0,
+        parent_token: Optional[Token] = None,
+    ):
         self.tokens = list(tokens)
         self.pos = 0
+        # The end-of-stream token points at the stream's last token, or, for an
+        # empty expression, at the expression token it was made from, so that an
+        # error raised on it ("expected ..., found end of expression") carries a
+        # position in its own source.
+        last = self.tokens[-1] if self.tokens else parent_token
+        if last is not None and last.start_index >= 0:
+            self.eof = Token(TOKEN_EOF, TOKEN_EOF, last.start_index, last.source)
         self.block_depth = block_depth_carry
 
     def __next__(self) -> Token:
@@ -132,7 +144,9 @@ class TokenStream:
 
         if eat:
             next(self)
-        return TokenStream(tokenize(token.value, parent_token=token))
+        return TokenStream(
+            tokenize(token.value, parent_token=token), parent_token=token
+        )
 
     def expect_eos(self) -> None:
         """Raise a syntax error if we're not at the end of the stream."""
